@@ -208,76 +208,192 @@ fn os_raw_tombstones() {
     kani::cover!(n == 2);
 }
 
-/// merge(S, O) with S and O concrete, each holding at most ONE key (live or tombstone, symbolic
-/// key/stamp, possibly the same key on both sides), versions of both concrete with at most one origin
-/// each: for the probe key, slot' == k_merge(slot_S, slot_O, ...); newest stamps become the pointwise
-/// maximum; S's cut-off for the origins involved is recomputed; live/dead stay disjoint.
-fn one_key_state() -> (SetN, Key, Slot) {
-    let mut s: SetN = OrSWotSet::default();
-    let k: Key = kani::any();
-    let ts = any_valid_ts();
-    let kind: u8 = kani::any();
-    kani::assume(kind < 3);
-    let slot = match kind {
-        0 => Slot::Empty,
-        1 => {
-            s.entries.insert(k, ts);
-            Slot::Live(ts.as_u64())
-        },
-        _ => {
-            s.dead.insert(k, ts);
-            Slot::Dead(ts.as_u64())
-        },
-    };
-    // versions: the origin of the held stamp has been seen through source 0 at some stamp >= it
-    if kind != 0 {
-        let seen = any_valid_ts();
-        kani::assume(seen.node() == ts.node() && seen >= ts);
-        s.versions.try_update_max_stamp(0, seen);
-    }
-    (s, k, slot)
+// ------------------------------------------------------------------ merge (C03), modular
+/// CONTRACT STUB of `NodeVersions::merge`, the callee `OrSWotSet::merge` ends with. Modular verification: the caller is
+/// checked against the callee's contract, not its body (the body is obligation `os_versions_merge`). The callee is handed
+/// `&mut self.versions` only, so by typing it cannot reach `entries`/`dead` (frame); what the caller's per-key result needs from it
+/// is nothing but that it is called exactly once, after both loops.
+pub static mut VERSIONS_MERGED: usize = 0;
+pub fn versions_merge_contract_stub<const N: usize>(_this: &mut NodeVersions<N>, _other: NodeVersions<N>) {
+    unsafe { VERSIONS_MERGED += 1 };
 }
-fn slot_at(s: &SetN, k: Key) -> Slot {
-    slot(s, k)
-}
-#[kani::proof]
-#[kani::unwind(10)]
-fn os_merge_kernel() {
-    let (mut s, ks, slot_s) = one_key_state();
-    let (o, ko, slot_o) = one_key_state();
-    let same: bool = kani::any();
-    if same {
-        kani::assume(ks == ko);
-    } else {
-        kani::assume(ks != ko);
-    }
-    // distinct timestamps
-    if let (Some(a), Some(b)) = (stamp_of(slot_s), stamp_of(slot_o)) {
-        kani::assume(a != b);
-    }
-    let probe = ks;
-    let sp = slot_s;
-    let op = if same { slot_o } else { Slot::Empty };
-    let s_before_lo = match sp {
-        Slot::Live(e) => k_before(l_at(&o, (e & 0xFF) as u8), e),
-        _ => false,
-    };
-    let o_before_ls = match op {
-        Slot::Dead(t) => k_before(l_at(&s, (t & 0xFF) as u8), t),
-        _ => false,
-    };
-    s.merge(o);
-    assert!(slot_at(&s, probe) == k_merge(sp, op, s_before_lo, o_before_ls), "merge acts per key as the merge kernel");
-    assert!(!(s.entries.get(&probe).is_some() && s.dead.get(&probe).is_some()), "live and dead stay disjoint");
-    kani::cover!(same && matches!(sp, Slot::Live(_)) && matches!(op, Slot::Dead(_)), "own live entry meets peer tombstone");
-    kani::cover!(same && matches!(sp, Slot::Dead(_)) && matches!(op, Slot::Live(_)), "own tombstone meets peer live entry");
-}
+
 fn stamp_of(s: Slot) -> Option<u64> {
     match s {
         Slot::Empty => None,
         Slot::Live(t) => Some(t),
         Slot::Dead(t) => Some(t),
     }
+}
+fn slot_in(keys: &[Key; 2], slots: &[Slot; 2], k: Key) -> Slot {
+    if keys[0] == k && slots[0] != Slot::Empty {
+        slots[0]
+    } else if keys[1] == k && slots[1] != Slot::Empty {
+        slots[1]
+    } else {
+        Slot::Empty
+    }
+}
+/// a replica state with at most B <= 2 keys (each live or tombstoned, symbolic key and stamp), concrete maps (they are iterated),
+/// cut-offs ARBITRARY (havoc map: any number of origins, any values), newest-stamp maps untouched (only the stubbed callee reads them)
+fn small_state<const B: usize>() -> (SetN, [Key; 2], [Slot; 2]) {
+    let mut s: SetN = OrSWotSet::default();
+    s.versions.safe_last_stamps = BTreeMap::arbitrary_unbounded();
+    let keys: [Key; 2] = [kani::any(), kani::any()];
+    kani::assume(keys[0] != keys[1]);
+    let mut slots = [Slot::Empty; 2];
+    let mut i = 0;
+    while i < 2 {
+        if i < B {
+            let ts = any_valid_ts();
+            let kind: u8 = kani::any();
+            kani::assume(kind < 3);
+            if kind == 1 {
+                s.entries.insert(keys[i], ts);
+                slots[i] = Slot::Live(ts.as_u64());
+            } else if kind == 2 {
+                s.dead.insert(keys[i], ts);
+                slots[i] = Slot::Dead(ts.as_u64());
+            }
+        }
+        i += 1;
+    }
+    (s, keys, slots)
+}
+/// merge(S, O), S and O with at most B keys each (possibly shared), arbitrary cut-offs on both sides: for every key in play
+/// slot'(k) == k_merge(slot_S(k), slot_O(k), "S's live stamp is before O's cut-off", "O's tombstone is before S's cut-off");
+/// no other key appears; live and dead stay disjoint; the version merge is called exactly once.
+/// Stamps are distinct unless both sides hold the very same operation (same key, same kind, same stamp).
+fn merge_slots_contract<const B: usize>() {
+    unsafe { VERSIONS_MERGED = 0 };
+    let (mut s, ks, ss) = small_state::<B>();
+    let (o, ko, so) = small_state::<B>();
+    // distinct timestamps, except for an operation both replicas hold
+    let mut i = 0;
+    while i < 2 {
+        let mut j = 0;
+        while j < 2 {
+            if let (Some(a), Some(b)) = (stamp_of(ss[i]), stamp_of(so[j])) {
+                kani::assume(a != b || (ks[i] == ko[j] && ss[i] == so[j]));
+            }
+            j += 1;
+        }
+        i += 1;
+    }
+    if let (Some(a), Some(b)) = (stamp_of(ss[0]), stamp_of(ss[1])) {
+        kani::assume(a != b);
+    }
+    if let (Some(a), Some(b)) = (stamp_of(so[0]), stamp_of(so[1])) {
+        kani::assume(a != b);
+    }
+    // expected result per key in play (pre-state read BEFORE the call; touching the cut-off maps in a fixed order)
+    let all: [Key; 4] = [ks[0], ks[1], ko[0], ko[1]];
+    let mut want = [Slot::Empty; 4];
+    let mut i = 0;
+    while i < 4 {
+        let k = all[i];
+        let sp = slot_in(&ks, &ss, k);
+        let op = slot_in(&ko, &so, k);
+        let s_before_lo = match sp {
+            Slot::Live(e) => k_before(l_at(&o, (e & 0xFF) as u8), e),
+            _ => false,
+        };
+        let o_before_ls = match op {
+            Slot::Dead(t) => k_before(l_at(&s, (t & 0xFF) as u8), t),
+            _ => false,
+        };
+        want[i] = k_merge(sp, op, s_before_lo, o_before_ls);
+        i += 1;
+    }
+    s.merge(o);
+    let mut i = 0;
+    while i < 4 {
+        assert!(slot(&s, all[i]) == want[i], "merge acts per key as the merge kernel");
+        assert!(!(s.entries.get(&all[i]).is_some() && s.dead.get(&all[i]).is_some()), "live and dead stay disjoint");
+        i += 1;
+    }
+    for (k, _) in s.entries.iter() {
+        assert!(*k == all[0] || *k == all[1] || *k == all[2] || *k == all[3], "no live id appears from nowhere");
+    }
+    for (k, _) in s.dead.iter() {
+        assert!(*k == all[0] || *k == all[1] || *k == all[2] || *k == all[3], "no tombstone appears from nowhere");
+    }
+    assert!(unsafe { VERSIONS_MERGED } == 1, "the version vectors are merged exactly once");
+    kani::cover!(ks[0] == ko[0] && matches!(ss[0], Slot::Live(_)) && matches!(so[0], Slot::Dead(_)), "own live entry meets peer tombstone");
+    kani::cover!(ks[0] == ko[0] && matches!(ss[0], Slot::Dead(_)) && matches!(so[0], Slot::Live(_)), "own tombstone meets peer live entry");
+    kani::cover!(ks[0] != ko[0] && matches!(ss[0], Slot::Live(_)) && slot(&s, ks[0]) == Slot::Empty, "own live entry the peer has seen and purged is dropped");
+    kani::cover!(ks[0] == ko[0] && ss[0] == so[0] && ss[0] != Slot::Empty, "both hold the same operation");
+}
+#[kani::proof]
+#[kani::unwind(6)]
+#[kani::stub(NodeVersions::merge, versions_merge_contract_stub)]
+fn os_merge_slots_1() {
+    merge_slots_contract::<1>();
+}
+#[kani::proof]
+#[kani::unwind(10)]
+#[kani::stub(NodeVersions::merge, versions_merge_contract_stub)]
+fn os_merge_slots_2() {
+    merge_slots_contract::<2>();
+}
+
+/// NodeVersions::merge(self, other): self ARBITRARY (havoc maps), other with at most one origin per source (iterated, concrete):
+/// newest stamps become the pointwise maximum, for every origin other mentions the cut-off is recomputed as
+/// cut(min over sources), a bystander origin is untouched.
+#[kani::proof]
+#[kani::unwind(10)]
+fn os_versions_merge() {
+    let mut v = havoc_versions();
+    let mut other: NodeVersions<N> = NodeVersions::default();
+    let ts: [HLCTimestamp; 2] = [any_valid_ts(), any_valid_ts()];
+    let has: [bool; 2] = [kani::any(), kani::any()];
+    let nodes = [ts[0].node(), ts[1].node()];
+    let by: u8 = kani::any();
+    kani::assume(by != nodes[0] && by != nodes[1]);
+    let g = |v: &NodeVersions<N>, src: usize, n: u8| u(v.nodes_max_stamps[src].get(&n));
+    let lg = |v: &NodeVersions<N>, n: u8| u(v.safe_last_stamps.get(&n));
+    // pre-state at the two origins and the bystander, fixed order
+    let pre = [[g(&v, 0, nodes[0]), g(&v, 1, nodes[0])], [g(&v, 0, nodes[1]), g(&v, 1, nodes[1])]];
+    let pre_l = [lg(&v, nodes[0]), lg(&v, nodes[1])];
+    let pre_by = (g(&v, 0, by), g(&v, 1, by), lg(&v, by));
+    // stamps are keyed by their own origin (type invariant of the version maps)
+    let own = |x: Option<u64>, n: u8| match x { Some(t) => (t & 0xFF) as u8 == n, None => true };
+    kani::assume(own(pre[0][0], nodes[0]) && own(pre[0][1], nodes[0]) && own(pre[1][0], nodes[1]) && own(pre[1][1], nodes[1]));
+    let mut i = 0;
+    while i < 2 {
+        if has[i] {
+            other.nodes_max_stamps[i].insert(nodes[i], ts[i]);
+        }
+        i += 1;
+    }
+    v.merge(other);
+    // expected newest stamps: source i of `other` mentions origin nodes[i] only
+    let mut i = 0;
+    while i < 2 {
+        // origin nodes[i]: which sources of `other` mention it
+        let n = nodes[i];
+        let mut exp = [pre[i][0], pre[i][1]];
+        let mut mentioned = false;
+        let mut src = 0;
+        while src < 2 {
+            if has[src] && nodes[src] == n {
+                exp[src] = Some(k_max_stamp(exp[src], ts[src].as_u64()));
+                mentioned = true;
+            }
+            src += 1;
+        }
+        assert!(g(&v, 0, n) == exp[0] && g(&v, 1, n) == exp[1], "newest stamps become the pointwise maximum");
+        if mentioned {
+            assert!(lg(&v, n) == Some(k_safe(exp[0], exp[1], n)), "cut-off recomputed from the merged newest stamps");
+        } else {
+            assert!(lg(&v, n) == pre_l[i], "origin not mentioned by the peer: cut-off untouched");
+        }
+        i += 1;
+    }
+    assert!((g(&v, 0, by), g(&v, 1, by), lg(&v, by)) == pre_by, "bystander origin untouched");
+    kani::cover!(has[0] && has[1] && nodes[0] == nodes[1], "both sources mention one origin");
+    kani::cover!(has[0] && has[1] && nodes[0] != nodes[1], "two origins");
+    kani::cover!(has[0] && pre[0][0].is_some() && pre[0][0].unwrap() > ts[0].as_u64(), "own stamp newer: kept");
 }
 
 // native replay of Kani counterexamples (tools/replay.py writes the file)
